@@ -11,8 +11,13 @@ import G3d.Props.C01
 * `splitTriangle_vgeom`: an `Ok` `split_triangle(i, p)` blanks the live slot `i = (a, b, c)` and adds `(c, a, p)`, `(a, b, p)`,
   `(b, c, p)` — nothing else changes.
 
+* `processHemisphere_vgeom`: each side of an `Ok` `split_edge` blanks its slot and adds `(A, p, C)`, `(p, B, C)`;
+* `flipDiagonal_vgeom`: an `Ok` `flip_diagonal` blanks the two live slots and adds `(A, O, C)`, `(C, O, B)`.
+
 Over ℝ (`vsum` = summed vector area of the live triangles): `splitTriangle_area` — **`split_triangle` keeps the summed vector
-area of the live triangles, for any point `p`**.
+area of the live triangles, for any point `p`**; `processHemisphere_area` — each side of `split_edge` changes it by exactly
+`−(A, B, p)` (zero for `p` on the line `AB`: `cyc_on_line`), for slots whose corners are pairwise distinct as `Triangle3D::new`
+guarantees; `flipDiagonal_area` — `flip_diagonal` keeps it whenever the neighbour's corners are `B, A, O` in some rotation.
 -/
 namespace G3d.C08S
 open G3d Num Mesh MeshM
@@ -299,6 +304,212 @@ theorem splitTriangle_vgeom (i : Nat) (p : V3 α) (m m' : Mesh α) (h : splitTri
     have : tp.valid = true := by simpa using hvalid
     simp [slotV, this]
 
+/-! ## `split_edge`, one side -/
+
+/-- **an `Ok` `process_hemisphere(segment, p, index)`** (one side of `split_edge`): slot `index` is blanked and exactly the two
+    live triangles `(A, p, C)`, `(p, B, C)` are added, where `A → B` is the stored edge of the slot that matches `segment`
+    and `C` the vertex `get_opposite_vertex` answers -/
+theorem processHemisphere_vgeom (seg : Segment α) (p : V3 α) (index : Nat) (m m' : Mesh α) (r : Nat × Nat)
+    (h : processHemisphere seg p index m = (m', .ok r)) :
+    ∃ tp k ab C l1 l2, m.triangles[index]? = some tp ∧
+      tp.triangle.getEdgeIndexFromSegment seg = some k ∧ tp.triangle.segment k = .ok ab ∧
+      getOppositeVertex tp.triangle ab = .ok C ∧
+      Added ((vgeom m).set index none) l1 (ab.start, p, C) ∧ Added l1 l2 (p, ab.stop, C) ∧ vgeom m' = l2 := by
+  unfold processHemisphere at h
+  obtain ⟨tp, m0, htp, h1⟩ := C01T.mbind_ok_inv _ _ _ _ _ h
+  clear h
+  obtain ⟨hm0, hget⟩ := C18.tgetM_ok_inv _ _ _ _ _ htp
+  subst hm0
+  obtain ⟨k, m1, hk, h2⟩ := C01T.mbind_ok_inv _ _ _ _ _ h1
+  clear h1
+  obtain ⟨hm1, hk'⟩ := ofRes_ok_inv _ _ _ _ hk
+  subst hm1
+  obtain ⟨ab, m2, hab, h3⟩ := C01T.mbind_ok_inv _ _ _ _ _ h2
+  clear h2
+  obtain ⟨hm2, hab'⟩ := ofRes_ok_inv _ _ _ _ hab
+  subst hm2
+  obtain ⟨e0, m3, he0, h4⟩ := C01T.mbind_ok_inv _ _ _ _ _ h3
+  clear h3
+  obtain ⟨hm3, _⟩ := ofRes_ok_inv _ _ _ _ he0
+  subst hm3
+  obtain ⟨e, m4, he, h5⟩ := C01T.mbind_ok_inv _ _ _ _ _ h4
+  clear h4
+  obtain ⟨hm4, _⟩ := ofRes_ok_inv _ _ _ _ he
+  subst hm4
+  obtain ⟨C, m5, hC, h6⟩ := C01T.mbind_ok_inv _ _ _ _ _ h5
+  clear h5
+  obtain ⟨hm5, hC'⟩ := ofRes_ok_inv _ _ _ _ hC
+  subst hm5
+  obtain ⟨u, m6, hinv, h7⟩ := C01T.mbind_ok_inv _ _ _ _ _ h6
+  clear h6
+  obtain ⟨hi, hv6⟩ := invalidate_vgeom _ _ _ hinv
+  obtain ⟨tp2, m7, htp2, h8⟩ := C01T.mbind_ok_inv _ _ _ _ _ h7
+  clear h7
+  obtain ⟨hm7, _⟩ := C18.tgetM_ok_inv _ _ _ _ _ htp2
+  subst hm7
+  obtain ⟨e1, m8, he1, h9⟩ := C01T.mbind_ok_inv _ _ _ _ _ h8
+  clear h8
+  obtain ⟨hm8, _⟩ := ofRes_ok_inv _ _ _ _ he1
+  subst hm8
+  obtain ⟨e2, m9, he2, h10⟩ := C01T.mbind_ok_inv _ _ _ _ _ h9
+  clear h9
+  obtain ⟨hm9, _⟩ := ofRes_ok_inv _ _ _ _ he2
+  subst hm9
+  obtain ⟨apcI, m10, hp1, h11⟩ := C01T.mbind_ok_inv _ _ _ _ _ h10
+  clear h10
+  obtain ⟨pbcI, m11, hp2, h12⟩ := C01T.mbind_ok_inv _ _ _ _ _ h11
+  clear h11
+  have hk12 : vgeom m' = vgeom m11 := by
+    refine keepsV_apply _ ?_ _ _ _ h12
+    refine keepsV_bind _ _ (keepsV_optConstrain _ _ _ _) (fun _ => ?_)
+    refine keepsV_bind _ _ (keepsV_markAsNeighbours _ _ _) (fun _ => ?_)
+    refine keepsV_bind _ _ (keepsV_optMark _ _ _) (fun _ => ?_)
+    refine keepsV_bind _ _ (keepsV_optConstrain _ _ _ _) (fun _ => ?_)
+    refine keepsV_bind _ _ (keepsV_optConstrain _ _ _ _) (fun _ => ?_)
+    refine keepsV_bind _ _ (keepsV_optMark _ _ _) (fun _ => ?_)
+    refine keepsV_bind _ _ (keepsV_optConstrain _ _ _ _) (fun _ => ?_)
+    exact keepsV_pure _
+  have a1 := push_vgeom _ _ _ _ _ _ _ hp1
+  have a2 := push_vgeom _ _ _ _ _ _ _ hp2
+  rw [hv6] at a1
+  refine ⟨tp, k, ab, C, vgeom m10, vgeom m11, hget, ?_, hab', hC', a1, a2, hk12⟩
+  unfold okOrErr at hk'
+  split at hk'
+  · rename_i b hb; injection hk' with hk'; rw [hb, hk']
+  · cases hk'
+
+/-! ## `split_edge` -/
+
+/-- **an `Ok` `split_edge(i, e, p)`** is `process_hemisphere` on the live slot `i` and, when the slot has a neighbour across `e`,
+    `process_hemisphere` on that neighbour (in the mesh the first one left); the final neighbour links change no corner -/
+theorem splitEdge_vgeom (i : Nat) (e : Edge) (p : V3 α) (m m' : Mesh α) (h : splitEdge i e p m = (m', .ok ())) :
+    ∃ tp seg m1 r1, m.triangles[i]? = some tp ∧ tp.valid = true ∧ tp.triangle.segment e.asI = .ok seg ∧
+      processHemisphere seg p i m = (m1, .ok r1) ∧
+      (match tp.neighbour e with
+        | none => vgeom m' = vgeom m1
+        | some neiI => ∃ m2 r2, processHemisphere seg p neiI m1 = (m2, .ok r2) ∧ vgeom m' = vgeom m2) := by
+  unfold splitEdge at h
+  obtain ⟨tp, m0, htp, h1⟩ := C01T.mbind_ok_inv _ _ _ _ _ h
+  clear h
+  obtain ⟨hm0, hget⟩ := C18.tgetM_ok_inv _ _ _ _ _ htp
+  subst hm0
+  split at h1
+  · simp [MeshM.err] at h1
+  · rename_i hvalid
+    obtain ⟨seg, m1, hseg, h2⟩ := C01T.mbind_ok_inv _ _ _ _ _ h1
+    clear h1
+    obtain ⟨hm1, hseg'⟩ := ofRes_ok_inv _ _ _ _ hseg
+    subst hm1
+    obtain ⟨r1, m2, hh1, h3⟩ := C01T.mbind_ok_inv _ _ _ _ _ h2
+    clear h2
+    refine ⟨tp, seg, m2, r1, hget, by simpa using hvalid, hseg', hh1, ?_⟩
+    obtain ⟨tl, tr⟩ := r1
+    simp only [] at h3
+    cases hn : tp.neighbour e with
+    | none =>
+      simp only [hn] at h3 ⊢
+      simp only [MeshM.pure, Prod.mk.injEq] at h3
+      rw [h3.1]
+    | some neiI =>
+      simp only [hn] at h3 ⊢
+      obtain ⟨r2, m3, hh2, h4⟩ := C01T.mbind_ok_inv _ _ _ _ _ h3
+      clear h3
+      refine ⟨m3, r2, hh2, ?_⟩
+      obtain ⟨br, bl⟩ := r2
+      simp only [] at h4
+      refine keepsV_apply _ ?_ _ _ _ h4
+      exact keepsV_bind _ _ (keepsV_markAsNeighbours _ _ _) (fun _ => keepsV_markAsNeighbours _ _ _)
+
+/-! ## `flip_diagonal` -/
+
+/-- **an `Ok` `flip_diagonal(index, edge)`**: slot `index` (corners `A, B, C` starting at `edge`) and its neighbour across `edge`
+    (`ni`, with `O` the vertex `get_opposite_vertex` answers for the segment `AB`) were live; both are blanked and exactly the
+    live triangles `(A, O, C)` and `(C, O, B)` are added -/
+theorem flipDiagonal_vgeom (index : Nat) (edge : Edge) (m m' : Mesh α) (h : flipDiagonal index edge m = (m', .ok ())) :
+    ∃ tp nb ni A B C O l2 l3,
+      m.triangles[index]? = some tp ∧ tp.valid = true ∧ tp.neighbour edge = some ni ∧
+      m.triangles[ni]? = some nb ∧ nb.valid = true ∧
+      tp.triangle.vertex (edge.asI % 3) = .ok A ∧ tp.triangle.vertex ((edge.asI + 1) % 3) = .ok B ∧
+      tp.triangle.vertex ((edge.asI + 2) % 3) = .ok C ∧ getOppositeVertex nb.triangle (Segment.new A B) = .ok O ∧
+      Added (((vgeom m).set index none).set ni none) l2 (A, O, C) ∧ Added l2 l3 (C, O, B) ∧ vgeom m' = l3 := by
+  unfold flipDiagonal at h
+  obtain ⟨tp, m0, htp, h1⟩ := C01T.mbind_ok_inv _ _ _ _ _ h
+  clear h
+  obtain ⟨hm0, hget⟩ := C18.tgetM_ok_inv _ _ _ _ _ htp
+  subst hm0
+  split at h1
+  · simp [MeshM.panic] at h1
+  · rename_i hvalid
+    cases hni : tp.neighbour edge with
+    | none => simp only [hni] at h1; simp [MeshM.panic] at h1
+    | some ni =>
+      simp only [hni] at h1
+      obtain ⟨nb, m1, hnb, h2⟩ := C01T.mbind_ok_inv _ _ _ _ _ h1
+      clear h1
+      obtain ⟨hm1, hgetn⟩ := C18.tgetM_ok_inv _ _ _ _ _ hnb
+      subst hm1
+      split at h2
+      · simp [MeshM.panic] at h2
+      · rename_i hnvalid
+        obtain ⟨A, m2, hA, h3⟩ := C01T.mbind_ok_inv _ _ _ _ _ h2
+        clear h2
+        obtain ⟨hm2, hA'⟩ := ofRes_ok_inv _ _ _ _ hA
+        subst hm2
+        obtain ⟨B, m3, hB, h4⟩ := C01T.mbind_ok_inv _ _ _ _ _ h3
+        clear h3
+        obtain ⟨hm3, hB'⟩ := ofRes_ok_inv _ _ _ _ hB
+        subst hm3
+        obtain ⟨C, m4, hC, h5⟩ := C01T.mbind_ok_inv _ _ _ _ _ h4
+        clear h4
+        obtain ⟨hm4, hC'⟩ := ofRes_ok_inv _ _ _ _ hC
+        subst hm4
+        obtain ⟨O, m5, hO, h6⟩ := C01T.mbind_ok_inv _ _ _ _ _ h5
+        clear h5
+        obtain ⟨hm5, hO'⟩ := ofRes_ok_inv _ _ _ _ hO
+        subst hm5
+        obtain ⟨acE, m6, hac, h7⟩ := C01T.mbind_ok_inv _ _ _ _ _ h6
+        clear h6
+        obtain ⟨hm6, _⟩ := ofRes_ok_inv _ _ _ _ hac
+        subst hm6
+        obtain ⟨cbE, m7, hcb, h8⟩ := C01T.mbind_ok_inv _ _ _ _ _ h7
+        clear h7
+        obtain ⟨hm7, _⟩ := ofRes_ok_inv _ _ _ _ hcb
+        subst hm7
+        obtain ⟨boE, m8, hbo, h9⟩ := C01T.mbind_ok_inv _ _ _ _ _ h8
+        clear h8
+        obtain ⟨hm8, _⟩ := ofRes_ok_inv _ _ _ _ hbo
+        subst hm8
+        obtain ⟨aoE, m9, hao, h10⟩ := C01T.mbind_ok_inv _ _ _ _ _ h9
+        clear h9
+        obtain ⟨hm9, _⟩ := ofRes_ok_inv _ _ _ _ hao
+        subst hm9
+        obtain ⟨u1, m10, hinv1, h11⟩ := C01T.mbind_ok_inv _ _ _ _ _ h10
+        clear h10
+        obtain ⟨_, hv10⟩ := invalidate_vgeom _ _ _ hinv1
+        obtain ⟨u2, m11, hinv2, h12⟩ := C01T.mbind_ok_inv _ _ _ _ _ h11
+        clear h11
+        obtain ⟨_, hv11⟩ := invalidate_vgeom _ _ _ hinv2
+        obtain ⟨aocI, m12, hp1, h13⟩ := C01T.mbind_ok_inv _ _ _ _ _ h12
+        clear h12
+        obtain ⟨cobI, m13, hp2, h14⟩ := C01T.mbind_ok_inv _ _ _ _ _ h13
+        clear h13
+        have hk : vgeom m' = vgeom m13 := by
+          refine keepsV_apply _ ?_ _ _ _ h14
+          refine keepsV_bind _ _ (keepsV_optMark _ _ _) (fun _ => ?_)
+          refine keepsV_bind _ _ (keepsV_optConstrain _ _ _ _) (fun _ => ?_)
+          refine keepsV_bind _ _ (keepsV_markAsNeighbours _ _ _) (fun _ => ?_)
+          refine keepsV_bind _ _ (keepsV_optMark _ _ _) (fun _ => ?_)
+          refine keepsV_bind _ _ (keepsV_optConstrain _ _ _ _) (fun _ => ?_)
+          refine keepsV_bind _ _ (keepsV_optMark _ _ _) (fun _ => ?_)
+          refine keepsV_bind _ _ (keepsV_optConstrain _ _ _ _) (fun _ => ?_)
+          refine keepsV_bind _ _ (keepsV_optMark _ _ _) (fun _ => ?_)
+          exact keepsV_optConstrain _ _ _ _
+        have a1 := push_vgeom _ _ _ _ _ _ _ hp1
+        have a2 := push_vgeom _ _ _ _ _ _ _ hp2
+        rw [hv11, hv10] at a1
+        exact ⟨tp, nb, ni, A, B, C, O, vgeom m12, vgeom m13, hget, by simpa using hvalid, hni, hgetn,
+          by simpa using hnvalid, hA', hB', hC', hO', a1, a2, hk⟩
+
 /-! ## over ℝ: the summed vector area of the live triangles -/
 
 section Real
@@ -369,6 +580,141 @@ theorem splitTriangle_area (i : Nat) (p : V3 ℝ) (m m' : Mesh ℝ) (h : splitTr
   rw [hm', vsum_added _ _ _ _ _ a3, vsum_added _ _ _ _ _ a2, vsum_added _ _ _ _ _ a1, ← vsum_set_none _ i a b c hi,
     ← split_triangle_area a b c p]
   v3_ring
+
+/-! ### `split_edge` over ℝ -/
+
+theorem compare_self (a : V3 ℝ) : a.compare a = true := by
+  unfold V3.compare
+  bool_real
+  num_real
+  norm_num
+
+theorem compare_symm (a b : V3 ℝ) : a.compare b = b.compare a := by
+  unfold V3.compare
+  simp only []
+  rw [show Num.abs (a.x - b.x) = Num.abs (b.x - a.x) by num_real; exact abs_sub_comm _ _,
+    show Num.abs (a.y - b.y) = Num.abs (b.y - a.y) by num_real; exact abs_sub_comm _ _,
+    show Num.abs (a.z - b.z) = Num.abs (b.z - a.z) by num_real; exact abs_sub_comm _ _]
+
+/-- what `Triangle3D::new` guarantees about the corners: no two of them `compare` equal -/
+def Distinct (t : Triangle ℝ) : Prop :=
+  t.a.compare t.b = false ∧ t.b.compare t.c = false ∧ t.c.compare t.a = false
+
+/-- **every triangle `Triangle3D::new` accepts has pairwise distinct corners** (so every slot `push` ever fills has) -/
+theorem triangle_new_distinct (a b c : V3 ℝ) (t : Triangle ℝ) (h : Triangle.new a b c = .ok t) : Distinct t := by
+  obtain ⟨ha, hb, hc⟩ := C01T.triangle_new_abc a b c t h
+  unfold Triangle.new at h
+  split at h
+  · cases h
+  · rename_i hne
+    simp only [Bool.or_eq_true, not_or, Bool.not_eq_true] at hne
+    obtain ⟨⟨h1, h2⟩, h3⟩ := hne
+    rw [Distinct, ha, hb, hc]
+    exact ⟨h1, h3, by rw [compare_symm]; exact h2⟩
+
+theorem edgeIndex_segment (t : Triangle ℝ) (hd : Distinct t) (k : Nat) (s : Segment ℝ) (hs : t.segment k = .ok s) :
+    t.getEdgeIndexFromSegment s = some k := by
+  obtain ⟨hab, hbc, hca⟩ := hd
+  have hba : t.b.compare t.a = false := by rw [compare_symm]; exact hab
+  have hcb : t.c.compare t.b = false := by rw [compare_symm]; exact hbc
+  have hac : t.a.compare t.c = false := by rw [compare_symm]; exact hca
+  unfold Triangle.segment at hs
+  unfold Triangle.getEdgeIndexFromSegment
+  match k, hs with
+  | 0, hs =>
+    injection hs with hs; subst hs
+    simp [Segment.compare, Triangle.ab, Segment.new, compare_self]
+  | 1, hs =>
+    injection hs with hs; subst hs
+    simp [Segment.compare, Triangle.ab, Triangle.bc, Segment.new, compare_self, hba, hca]
+  | 2, hs =>
+    injection hs with hs; subst hs
+    simp [Segment.compare, Triangle.ab, Triangle.bc, Triangle.ca, Segment.new, compare_self, hca, hcb, hab, hac]
+
+/-- the stored edge `k` and the vertex opposite to it are a cyclic rotation of the corners -/
+theorem edge_opposite_rotation (t : Triangle ℝ) (hd : Distinct t) (k : Nat) (s : Segment ℝ) (C : V3 ℝ)
+    (hs : t.segment k = .ok s) (hC : getOppositeVertex t s = .ok C) :
+    cyc [s.start, s.stop, C] = cyc [t.a, t.b, t.c] := by
+  have hk := edgeIndex_segment t hd k s hs
+  unfold getOppositeVertex at hC
+  rw [hk] at hC
+  unfold Triangle.segment at hs
+  match k, hs, hC with
+  | 0, hs, hC =>
+    injection hs with hs; subst hs
+    simp only [Triangle.vertex] at hC
+    injection hC with hC; subst hC
+    rfl
+  | 1, hs, hC =>
+    injection hs with hs; subst hs
+    simp only [Triangle.vertex] at hC
+    injection hC with hC; subst hC
+    simp only [Triangle.bc, Segment.new, cyc_triangle]; v3_ring
+  | 2, hs, hC =>
+    injection hs with hs; subst hs
+    simp only [Triangle.vertex] at hC
+    injection hC with hC; subst hC
+    simp only [Triangle.ca, Segment.new, cyc_triangle]; v3_ring
+
+/-- **one side of `split_edge` over ℝ**: for a live slot with pairwise distinct corners, an `Ok` `process_hemisphere` changes the
+    summed vector area of the live triangles by exactly `−(A, B, p)`, the (vector area of the) triangle between the split
+    edge `A → B` as the slot stores it and the split point — zero when `p` lies on the line `AB` -/
+theorem processHemisphere_area (seg : Segment ℝ) (p : V3 ℝ) (index : Nat) (m m' : Mesh ℝ) (r : Nat × Nat)
+    (h : processHemisphere seg p index m = (m', .ok r))
+    (hlive : ∀ tp, m.triangles[index]? = some tp → tp.valid = true ∧ Distinct tp.triangle) :
+    ∃ A B, vsum (vgeom m') + cyc [A, B, p] = vsum (vgeom m) := by
+  obtain ⟨tp, k, ab, C, l1, l2, hget, _, hab, hC, a1, a2, hm'⟩ := processHemisphere_vgeom seg p index m m' r h
+  obtain ⟨hv, hd⟩ := hlive tp hget
+  refine ⟨ab.start, ab.stop, ?_⟩
+  have hslot : (vgeom m)[index]? = some (some (tp.triangle.a, tp.triangle.b, tp.triangle.c)) := by
+    rw [vgeom_getElem?, hget]; simp [slotV, hv]
+  rw [hm', vsum_added _ _ _ _ _ a2, vsum_added _ _ _ _ _ a1, ← vsum_set_none _ index _ _ _ hslot,
+    ← edge_opposite_rotation tp.triangle hd k ab C hab hC]
+  simp only [cyc_triangle]
+  v3_ring
+
+/-- a point of the line `AB` spans no area with `A`, `B` -/
+theorem cyc_on_line (a b : V3 ℝ) (s : ℝ) : cyc [a, b, a + (b - a).smul s] = ⟨0, 0, 0⟩ := by
+  rw [cyc_triangle]; v3_ring
+
+/-! ### `flip_diagonal` over ℝ -/
+
+theorem vertex_rotation (t : Triangle ℝ) (e : Edge) (A B C : V3 ℝ) (hA : t.vertex (e.asI % 3) = .ok A)
+    (hB : t.vertex ((e.asI + 1) % 3) = .ok B) (hC : t.vertex ((e.asI + 2) % 3) = .ok C) :
+    cyc [A, B, C] = cyc [t.a, t.b, t.c] := by
+  cases e <;> simp [Edge.asI, Triangle.vertex] at hA hB hC <;> subst hA hB hC
+  · rfl
+  · simp only [cyc_triangle]; v3_ring
+  · simp only [cyc_triangle]; v3_ring
+
+/-- **`flip_diagonal` over ℝ**: the two live triangles `(A, B, C)` (slot `index`) and the neighbour's are replaced by
+    `(A, O, C)` and `(C, O, B)`; the summed vector area of the live triangles changes by exactly the difference, which is zero
+    (`flip_area`) whenever the neighbour's corners are `B, A, O` in some rotation, i.e. the two triangles really share the
+    edge `AB` with opposite orientation -/
+theorem flipDiagonal_area (index : Nat) (edge : Edge) (m m' : Mesh ℝ) (h : flipDiagonal index edge m = (m', .ok ())) :
+    ∃ tp nb ni A B O, m.triangles[index]? = some tp ∧ tp.neighbour edge = some ni ∧ m.triangles[ni]? = some nb ∧
+      tp.triangle.vertex (edge.asI % 3) = .ok A ∧ tp.triangle.vertex ((edge.asI + 1) % 3) = .ok B ∧
+      getOppositeVertex nb.triangle (Segment.new A B) = .ok O ∧
+      (ni ≠ index → cyc [nb.triangle.a, nb.triangle.b, nb.triangle.c] = cyc [B, A, O] →
+        vsum (vgeom m') = vsum (vgeom m)) := by
+  obtain ⟨tp, nb, ni, A, B, C, O, l2, l3, hget, hv, hni, hgetn, hnv, hA, hB, hC, hO, a1, a2, hm'⟩ :=
+    flipDiagonal_vgeom index edge m m' h
+  refine ⟨tp, nb, ni, A, B, O, hget, hni, hgetn, hA, hB, hO, ?_⟩
+  intro hne hshare
+  have hs1 : (vgeom m)[index]? = some (some (tp.triangle.a, tp.triangle.b, tp.triangle.c)) := by
+    rw [vgeom_getElem?, hget]; simp [slotV, hv]
+  have hs2 : ((vgeom m).set index none)[ni]? = some (some (nb.triangle.a, nb.triangle.b, nb.triangle.c)) := by
+    rw [List.getElem?_set_ne (by omega), vgeom_getElem?, hgetn]; simp [slotV, hnv]
+  have e1 := vsum_set_none _ index _ _ _ hs1
+  have e2 := vsum_set_none _ ni _ _ _ hs2
+  have hrot := vertex_rotation tp.triangle edge A B C hA hB hC
+  rw [hm', vsum_added _ _ _ _ _ a2, vsum_added _ _ _ _ _ a1, ← e1, ← e2, ← hrot, hshare]
+  have := flip_area A B C O
+  simp only [cyc_triangle] at this ⊢
+  have hx := congrArg V3.x this
+  have hy := congrArg V3.y this
+  have hz := congrArg V3.z this
+  apply V3.ext' <;> simp only [V3.add_def] at hx hy hz ⊢ <;> num_real_at hx <;> num_real_at hy <;> num_real_at hz <;> num_real <;> linarith
 
 end
 end Real
